@@ -36,6 +36,11 @@ def showObsv : Obsv → Option String
   | .pos offs dirty any =>
     some ("pos [" ++ join ((sortBy (·.1) offs).map fun (vb, o) => s!"{vb}{showOffset o}") ++ s!"] dirty={showVbs dirty} any=" ++ (if any then "1" else "0"))
   | .counters m d e => some s!"mut={m} del={d} exp={e}"
+  | .scrapeClosed => some "scrape closed"
+  | .scrape rows total =>
+    let f := fun (n : Nat) => if n < 9007199254740992 then toString n else "big"
+    some ("scrape [" ++ join ((sortBy (·.vb) rows).map fun r =>
+      s!"{r.vb}:{f r.cur},{f r.ss},{f r.se},{f r.lag},{r.nmut},{r.ndel},{r.nexp},{f r.persist}") ++ s!"] total={f total}")
 
 def showObsvs (l : List Obsv) : String :=
   match l.filterMap showObsv with
@@ -107,6 +112,7 @@ def parseOp : List String → Option Op
   | ["persist", vb, seq] => do some (.persist (← vb.toNat?) (← seq.toNat?))
   | ["offsets"] => some .getOffsets
   | ["metrics", vb] => do some (.metrics (← vb.toNat?))
+  | ["scrape"] => some .scrape
   | _ => none
 
 /-- one session line; `none` = not a session command -/
